@@ -48,6 +48,21 @@ func runC01(p *Program, e *Engine, r *Result, tier string) {
 	if tf := findTables(a); tf != nil && a.Ro.API["Remove"] != nil {
 		c04RemoveExact(a, tf, a.Ro.API["Remove"], "C01.6")
 	}
+	// (7) the name of the entry: exactly the record's name bytes, NUL padding removed for every padding length
+	// (shared with C08.3)
+	if _, hv, hctx := handlerVisits(a, df); hctx != nil {
+		n0 := len(a.R.Obligations)
+		c08EntryName(a, df, hv, hctx)
+		for i := n0; i < len(a.R.Obligations); i++ {
+			if a.R.Obligations[i].Rule == "C08.3" {
+				a.R.Obligations[i].Rule = "C01.7"
+				a.R.Obligations[i].Key = "C01.7|" + strings.TrimPrefix(a.R.Obligations[i].Key, "C08.3|")
+			}
+		}
+	}
+	// (8) Add always asks the kernel: a successful Add passed inotify_add_watch (a path that is listed may meanwhile
+	// name another file; trusting the table would leave the new file unwatched) - shared with C04.8
+	c04AddAsksKernel(a, "C01.8")
 }
 
 func sizeofRecord(a *An, df *DecodeFacts) int64 {
@@ -333,22 +348,25 @@ func sendFnRule(a *An, rule string, fns []*ssa.Function, kind, what, skipDesc st
 			if !isRet || v.Ctx.Parent != nil || len(r.Results) != 1 {
 				continue
 			}
-			k, isK := r.Results[0].(*ssa.Const)
-			if !isK {
-				okFalse = false
-				fw = append(fw, "non-constant result at "+a.P.instrPos(r))
-				continue
-			}
-			if k.Value != nil && k.Value.String() == "false" {
-				nFalse++
-				onDone, _ := v.Cond.everyConj(func(c Conj) bool {
-					return c.has(func(l Lit) bool {
-						return l.A.Kind == AkCmp && !l.Neg && l.A.Op == "==" && strings.HasPrefix(l.A.Subj, "select@") && l.A.K == sprintf("c:%d", doneIdx)
-					})
-				})
-				if !onDone {
+			// the result through phis / local result variables, with the condition of each source
+			for _, e := range valueEdges(v.Ctx, r.Results[0], v.Cond) {
+				k, isK := e.V.(*ssa.Const)
+				if !isK {
 					okFalse = false
-					fw = append(fw, "returns false under "+stripIDs(v.Cond.String()))
+					fw = append(fw, "non-constant result at "+a.P.instrPos(r))
+					continue
+				}
+				if k.Value != nil && k.Value.String() == "false" {
+					nFalse++
+					onDone, _ := e.Cond.everyConj(func(c Conj) bool {
+						return c.has(func(l Lit) bool {
+							return l.A.Kind == AkCmp && !l.Neg && l.A.Op == "==" && strings.HasPrefix(l.A.Subj, "select@") && l.A.K == sprintf("c:%d", doneIdx)
+						})
+					})
+					if !onDone {
+						okFalse = false
+						fw = append(fw, "returns false under "+stripIDs(e.Cond.String()))
+					}
 				}
 			}
 		}
@@ -359,14 +377,25 @@ func sendFnRule(a *An, rule string, fns []*ssa.Function, kind, what, skipDesc st
 
 // zeroEvent reports whether v is the zero Event.
 func zeroEvent(c *Ctx, v ssa.Value) bool {
-	rv, _ := c.resolve(v)
+	rv, rc := c.resolve(v)
 	switch x := rv.(type) {
 	case *ssa.Const:
 		return x.Value == nil
 	case *ssa.UnOp:
 		if x.Op == token.MUL {
 			if al, ok := x.X.(*ssa.Alloc); ok {
-				return len(cellStores(al)) == 0 && !fieldStored(al) && !cellEscapes(al)
+				if len(cellStores(al)) == 0 && !fieldStored(al) && !cellEscapes(al) {
+					return true
+				}
+				// a named result that is assigned only later: zero here if only the initial value reaches this load
+				if defs, ok := rc.cellDefs(al, x); ok {
+					for _, d := range defs {
+						if d.Store != nil {
+							return false
+						}
+					}
+					return true
+				}
 			}
 		}
 	}
